@@ -310,16 +310,16 @@ pub fn subs(_env: &Env) -> Vec<Sub> {
     vec![
         Sub::exhaustive("catalogue", N_BASE as u64, N_BASE as u64, catalogue_case,
             "honest record run of the whole malicious hybrid query for each of the base inputs (1 and 2 shards, with and without padding, three output widths): must complete and equal the plaintext reference; yields the channel catalogue that the fault cases index"),
-        Sub::random("tamper", 40, 1200, 60_000, tamper_case,
+        Sub::random("tamper", 40, 1200, 20_000, tamper_case,
             "case = (base input, corrupt helper, channel of that helper chosen by hierarchical stratification over gate components (uniform choice among distinct next components at depths 1..5, then uniform), chunk ordinal first/last/random, edit: bit flip first/last/random byte, xor-all, replace, additive on 1/4/8/32-byte elements incl. modular for Fp32/Fp61); tampered run uses the same seeds as the baseline; accept iff an honest helper errs, or no output within max(5 s, 20x baseline), or the two honest helpers' shares alone reconstruct the baseline histogram; non-trivial = edit fired and changed bytes; distinct by (base, corrupt, gate, dest, shard, edit class, first/middle/last chunk)")
         .shrink_iters(16),
-        Sub::random("tamper_sparse", 40, 1200, 40_000, tamper_sparse_case,
+        Sub::random("tamper_sparse", 40, 1200, 10_000, tamper_sparse_case,
             "same as `tamper`, on the sparse base inputs only (one shard, no padding, 3-6 attributed pairs with pairwise distinct buckets, so the aggregation tree has no additions): an alteration of shuffle or reveal traffic late in the query is not re-proved by a later multiplication and must be caught by the step's own check")
         .shrink_iters(16),
-        Sub::random("tamper_shuffle_rows", 40, 500, 20_000, tamper_shuffle_rows_case,
+        Sub::random("tamper_shuffle_rows", 40, 500, 6_000, tamper_shuffle_rows_case,
             "sparse base inputs, only the shuffle transfer channels (x/y and c tables of the input shuffle and of the attribution-output shuffle), edit = one of the three lowest bits of one row for a plausible row size: the value bits of a row in flight")
         .shrink_iters(16),
-        Sub::random("tamper_reveal", 40, 400, 20_000, tamper_reveal_case,
+        Sub::random("tamper_reveal", 40, 400, 6_000, tamper_reveal_case,
             "same as `tamper`, restricted to channels of steps whose gate contains `reveal` (openings of pseudonyms, breakdown keys, share-conversion masks, MAC keys): the receiver gets two copies of the missing share and must refuse to open when they differ")
         .shrink_iters(16),
     ]
